@@ -469,7 +469,7 @@ func TestC18(t *testing.T) {
 	paths := gen.AllPaths(stCfg)
 	notOpen := stats.IsOpen("C18", "json-not-nary")
 	descOpen := stats.IsOpen("C18", "json-desc-escaped")
-	check(t, 0, budget(1500, 60000), func(rt *rapid.T) {
+	check(t, 0, budget(6000, 80000), func(rt *rapid.T) {
 		st := gen.SeededState(rapid.Uint64Range(0, 1<<16).Draw(rt, "state_seed"), stCfg)
 		g := gen.NewXG(rt, gen.ExprCfg{Paths: paths, Recv: "F", Hostile: true, SmallLits: false, StrFuncs: true, NoPtrNum: true})
 		cond := g.Bool(rapid.IntRange(1, 4).Draw(rt, "cond_depth"))
